@@ -81,6 +81,12 @@ def run_job(job):
     exp = job["expected"]
     out = {"job": job, "res": res, "fail": None, "notes": {}, "cmdline": res.cmdline()}
     out["model_fail"] = model_check(job, res, outs)
+    if job.get("model_only"):
+        # shapes outside the property's quantifier: only the model's description of the tool is checked
+        if res.crashed():
+            out["fail"] = ("no crash", res.brief())
+        out["class"] = "model-only"
+        return out
     if exp is None:
         # the library refuses to rewrite one of the RPUs: the command must end with an error, not crash
         if res.rc == 0 or res.crashed():
@@ -199,7 +205,7 @@ def run(ctx):
     jobs = []
     streams = []
 
-    def add_stream(tag, st, cfgs, check_sc_ok=True):
+    def add_stream(tag, st, cfgs, check_sc_ok=True, model_only=False):
         data = st.render()
         assert H.nal_seq(data) == st.seq(), "generator self-check: render/split disagree"
         sid = len(streams)
@@ -218,9 +224,10 @@ def run(ctx):
             exp = F.ref_general(items, c["cmd"], conv, key=key, discard=c.get("discard", False),
                                 start_code=c.get("start_code"), drop=False)
             jobs.append({"sid": sid, "tag": tag, "cfg": c, "expected": exp, "check_sc": check_sc_ok and not has_tz,
-                         "key": key,
+                         "key": key, "model_only": model_only,
                          "mline": M.general_line(c["cmd"], items, conv, key=key, discard=c.get("discard", False),
-                                                 el_only=c.get("el_only", False), start_code=c.get("start_code"), drop=False)})
+                                                 el_only=c.get("el_only", False), start_code=c.get("start_code"), drop=False,
+                                                 late=(not c.get("stdin")) and M.first_nal_late(data, c.get("chunk")))})
 
     # ---- class 1: shapes
     n_shape = 400 if quick else 3000
@@ -314,6 +321,21 @@ def run(ctx):
         if not quick:
             cfgs += gen_cfgs(r, 3, [None, 1000, 20000])
         add_stream("real", st, cfgs)
+
+    # ---- class 5 (model correspondence only): two RPUs in one access unit.  Outside the property's quantifier (at most
+    # one RPU per access unit); the model says what the tool does (demux / remove discard the second one unless the frame
+    # is frame 0, convert keeps both) and is compared with the CLI
+    for i in range(8 if quick else 60):
+        r = rng.fork("corner%d" % i)
+        specs = H.gen_structure(r, 4, poc_bits=8)
+        st = H.build_stream(r, H.Codec(ps), specs, pick(r, 4), el=r.choice(["free", "none", "parse"]), sc=r.choice(["four", "mixed"]),
+                            tz=0, eos="end", pad=(0, 6))
+        au = st.aus[i % 4]
+        j = next(idx for idx, n in enumerate(au.nals) if n.role == "rpu")
+        au.nals.insert(j + 1, H.Nal(r.choice(uni if uni else rpus), "rpu", au.nals[j].sc))
+        cfgs = [{"cmd": cmd, "chunk": r.choice([257, None]), "stdin": False, "start_code": r.choice([None, "annex-b"])}
+                for cmd in ("convert", "demux", "remove")]
+        add_stream("two-rpus-in-one-au", st, cfgs, model_only=True)
 
     with R.Work("C05") as work:
         for sid, (tag, st, data) in enumerate(streams):
